@@ -51,7 +51,7 @@ class Outcome:
     def brief(self):
         if self.kind == "raise":
             return {"raised": self.exc_type, "message": str(self.exc)[:300], "where": self.where}
-        return {"flags": None if self.flags is None else [int(v) for v in self.flags.tolist()],
+        return {"flags": None if self.flags is None else core.jsonable(np.asarray(self.flags).reshape(-1).tolist()),
                 "masked_positions": None if self.masked is None else [int(i) for i in np.flatnonzero(self.masked)],
                 "shape": list(self.shape) if self.shape is not None else None, "dtype": self.dtype}
 
